@@ -3,7 +3,7 @@
    code as found, the same histories under the repairs, and a reachable state satisfying the premises of deliver_once. *)
 From Coq Require Import List NArith ZArith Bool Arith Lia.
 From Muscle Require Import Gen.Consts Refl.Base Refl.Tree Refl.Matcher Refl.Traverse Refl.Session Refl.Server Refl.Route
-  Refl.TravBase Refl.TraverseProofs Refl.TraverseTheorems Refl.TravWitness Refl.RouteProofs Refl.RouteRun.
+  Refl.TravBase Refl.TraverseProofs Refl.TraverseTheorems Refl.TravWitness Refl.RouteProofs Refl.RouteRun Pat.Translate Refl.ClauseKeys.
 Import ListNotations.
 Local Open Scope N_scope.
 
@@ -89,3 +89,17 @@ Proof.
   - split; [vm_compute; reflexivity|].
     eexists. eexists. split; [vm_compute; reflexivity|]. split; [vm_compute; reflexivity|]. apply empty_matcher_wf.
 Qed.
+
+(* ------------------------------------------------------------------ the sources the translator has just read are the repaired ones *)
+
+Lemma code_is_repaired_lemma :
+  (c_c05_guard_as_found, c_c05_once_as_found, c_c05_route_as_found, c_c05_uvkeys_as_found) = (0, 0, 0, 0)%N /\
+  (c_c05_pass_returns_session_depth, c_c05_default_flags_gw_and_nb) = (1, 1)%N /\ r_as_is = r_all_fixed /\
+  (forall st, clause_keys st = clause_keys_with true st).
+Proof. repeat split; reflexivity. Qed.
+
+Lemma premises_satisfiable_lemma :
+  tree_wf f12_tree /\ matcher_wf f12_matcher /\
+  (forall (c : clause) (ks : list name) (k : name), True -> ckeys c = Some ks -> cmatch c k = true -> In k ks) /\
+  map n_path (visits f12_tree f12_matcher [] true true) = [[jeremy; kate]; [kevin; joe]].
+Proof. split; [exact f12_tree_wf|]. split; [exact f12_matcher_wf|]. split; [intros c ks k _; apply wkeys_sound | exact f12_fixed_visits]. Qed.
